@@ -9,7 +9,7 @@ from ..space import Listed, Product, stripe
 
 ID = "C01"
 LEVEL = "exploration"
-TECHNIQUE = "bounded-exhaustive enumeration of the (date, time, rendering, settings) choice tree against an independent renderer/oracle"
+TECHNIQUE = "bounded-exhaustive enumeration of the (date, time, rendering, settings) choice tree against an independent renderer/oracle; two-call histories (an odd string first) carried inside the case"
 RULE = ("cases = complete Cartesian products / full single-dimension sweeps listed under subspaces; "
         "a case is non-trivial when the library returned a datetime (the parse pipeline produced a value "
         "the oracle then had to agree with); distinct = distinct case tuples")
